@@ -105,7 +105,7 @@ func (c *compiler) expandExpression(expr []token, line int) ([]token, error) {
 
 				label, labelOk := c.labels[tok.val]
 				if labelOk {
-					val := (label - line) % int(c.m)
+					val := label - line
 					if val < 0 {
 						output = append(output, token{tokSymbol, "-"}, token{tokNumber, fmt.Sprintf("%d", -val)})
 					} else {
